@@ -533,6 +533,8 @@ class ExprMixin:
                 return False
             s = z3.simplify(p[0])
             return True if z3.is_true(s) else (False if z3.is_false(s) else SV(p[0], TBool))
+        if isinstance(container, PairList):
+            container = [k for k, _ in container.pairs]
         if isinstance(container, (tuple, list)):
             acc = False
             for y in container:
@@ -739,6 +741,22 @@ class ExprMixin:
                     return self.call_function(m[0], [obj, idx], {}, node, cls=m[1])
                 if isinstance(ty, TRef):
                     return self.call_extern(f"ext:{ty.cls}.__getitem__", [obj, idx], {}, node, None)
+        if isinstance(obj, PairList) and obj.pairs:
+            # d[k] on a dict literal with symbolic keys: the value of the first pair whose key equals k; KeyError if none does
+            hit = False
+            for kk, _ in obj.pairs:
+                r = self.eq(idx, kk)
+                hit = r if hit is False else (hit if r is False else (True if (hit is True or r is True) else (hit | r)))
+            if hit is False or (hit is not True and not self.branch(hit)):
+                raise RaiseEx("KeyError", None, node)
+            acc = obj.pairs[-1][1]
+            for kk, vv in reversed(obj.pairs[:-1]):
+                r = self.eq(idx, kk)
+                if r is True:
+                    acc = vv
+                elif r is not False:
+                    acc = self.merge_values(r.t, vv, acc)
+            return acc
         raise Unsupported(f"subscript of {obj!r}")
 
     # ---------------- comprehensions ----------------
